@@ -7,12 +7,15 @@ package c06
 import (
 	"bytes"
 	"fmt"
+	"github.com/whatap/golib/lang/pack"
+	wnet "github.com/whatap/golib/net"
 	"net"
 	"runtime"
 	"sync"
 	"sync/atomic"
 	"testing"
 	"time"
+	"verif/ref"
 
 	"github.com/whatap/golib/net/oneway"
 	"pgregory.net/rapid"
@@ -514,3 +517,98 @@ var specDrainConc = pbt.Register(pbt.Spec[DrainConcCase]{
 })
 
 func TestProducersSendWhileOwnerDrains(t *testing.T) { specDrainConc.Check(t) }
+
+// ---- many senders, each with a per-send license of its own ------------------------------------------------------
+
+type LicStressCase struct {
+	Goroutines int `json:"g"`
+	N          int `json:"n"`
+}
+
+func runLicStress(c LicStressCase) *pbt.Result {
+	pr, err := newPeer()
+	if err != nil {
+		return pbt.Fail("harness cannot listen: %v", err)
+	}
+	defer pr.shutdown()
+	cl := oneway.NewForVerif(oneway.WithServers([]string{pr.addr}), oneway.WithLicense(clientLicense), oneway.WithPcode(77))
+	cl.Timeout = 5 * time.Second
+	defer cl.Close()
+	frames := make([][][]byte, c.Goroutines)
+	errs := make([]error, c.Goroutines)
+	var wg sync.WaitGroup
+	start := make(chan struct{})
+	for g := 0; g < c.Goroutines; g++ {
+		wg.Add(1)
+		go func(g int) {
+			defer wg.Done()
+			lic := burstLicense(g)
+			<-start
+			for k := 0; k < c.N; k++ {
+				p := mkPack(int64(g)<<32|int64(k+1), 0, uint64(g*104729+k))
+				payload := append([]byte(nil), pack.ToBytesPack(p)...)
+				frames[g] = append(frames[g], ref.Frame(10, 0, p.GetPCODE(), ref.Hash64([]byte(lic)), payload))
+				if e := cl.Send(p, wnet.WithLicense(lic)); e != nil && errs[g] == nil {
+					errs[g] = e
+				}
+			}
+		}(g)
+	}
+	close(start)
+	wg.Wait()
+	total := 0
+	byF := map[string][2]int{}
+	for g := range frames {
+		if errs[g] != nil {
+			return pbt.Fail("Send from goroutine %d on a healthy connection returned %v", g, errs[g])
+		}
+		for k, f := range frames[g] {
+			total += len(f)
+			byF[string(f)] = [2]int{g, k}
+		}
+	}
+	pr.waitFor(func() bool {
+		n := 0
+		for _, pc := range pr.conns {
+			n += len(pc.buf)
+		}
+		return n >= total
+	})
+	pr.mu.Lock()
+	defer pr.mu.Unlock()
+	var got []byte
+	for _, pc := range pr.conns {
+		got = append(got, pc.buf...)
+	}
+	fr, rest, perr := splitFrames(got)
+	if perr != nil || len(rest) != 0 {
+		return pbt.Fail("the collector's stream is not a sequence of whole frames (%d bytes left over, %v)", len(rest), perr)
+	}
+	seen := map[[2]int]bool{}
+	for _, f := range fr {
+		id, ok := byF[string(f)]
+		if !ok {
+			return pbt.Fail("%d goroutines sent %d packs each, every goroutine with a per-send license of its own: a received frame (%d bytes, license hash %x) is not the frame of any send - it does not carry the hash of the license given for that send", c.Goroutines, c.N, len(f), f[10:18])
+		}
+		if seen[id] {
+			return pbt.Fail("the frame of send %d of goroutine %d was received twice", id[1]+1, id[0])
+		}
+		seen[id] = true
+	}
+	if len(seen) != len(byF) {
+		return pbt.Fail("%d sends returned nil on a healthy connection, %d frames were received", len(byF), len(seen))
+	}
+	return &pbt.Result{NT: true, Classes: []string{fmt.Sprintf("goroutines=%d", c.Goroutines)}}
+}
+
+var specLicStress = pbt.Register(pbt.Spec[LicStressCase]{
+	Prop: "C06", Name: "per-send-licenses-concurrently",
+	Rule:  "2-8 goroutines send 1000-5000 small packs each through one direct-mode client, every goroutine with a per-send license of its own (seed C06-s20); every received frame must be the reference frame of exactly one send (that send's pack, project code and the hash of the license given for it), none twice, none missing; sound for any schedule; every case is non-trivial; distinct by case",
+	Quick: 6, Thorough: 150,
+	Draw: func(t *rapid.T) LicStressCase {
+		return LicStressCase{Goroutines: rapid.IntRange(2, 8).Draw(t, "g"), N: rapid.SampledFrom([]int{1000, 2000, 5000}).Draw(t, "n")}
+	},
+	Run: runLicStress,
+})
+
+func TestPerSendLicensesConcurrently(t *testing.T) { specLicStress.Check(t) }
